@@ -93,7 +93,7 @@ def calculate_eta_shrinkage(
 
     param_names = [str(param) for param in model.random_variables.etas.covariance_matrix.diagonal()]
     diag_ests = pe[param_names]
-    diag_ests.index = individual_estimates.columns
+    diag_ests.index = model.random_variables.etas.names
     if not sd:
         shrinkage = 1 - (individual_estimates.var() / diag_ests)
     else:
